@@ -4,6 +4,7 @@ import (
 	"fmt"
 	"strings"
 
+	"github.com/pdfcpu/pdfcpu/pkg/pdfcpu/model"
 	"verif/harness/lib/rawpdf"
 )
 
@@ -42,10 +43,36 @@ type DocIn struct {
 	Groups []GroupIn `json:"groups"`
 }
 
+// ConfIn mirrors Doc!Conf: the configuration switches an API call runs with.
+type ConfIn struct {
+	Optimize bool `json:"optimize"`
+	OptBW    bool `json:"optbw"`
+	ResDicts bool `json:"resdicts"`
+	DupCS    bool `json:"dupcs"`
+	ObjStm   bool `json:"objstm"`
+	XRefStm  bool `json:"xrefstm"`
+}
+
+// conf returns a fresh configuration (the API functions modify the one they are given); nil ConfIn = library defaults.
+func (c *ConfIn) conf() *model.Configuration {
+	if c == nil {
+		return nil
+	}
+	m := model.NewDefaultConfiguration()
+	m.Optimize = c.Optimize
+	m.OptimizeBeforeWriting = c.OptBW
+	m.OptimizeResourceDicts = c.ResDicts
+	m.OptimizeDuplicateContentStreams = c.DupCS
+	m.WriteObjectStream = c.ObjStm
+	m.WriteXRefStream = c.XRefStm
+	return m
+}
+
 type docExtras struct {
-	info    string // info dict content
-	catalog string // extra catalog entries
-	version string
+	info      string // info dict content
+	catalog   string // extra catalog entries
+	version   string
+	bookmarks []int // pages the top-level bookmarks bm1, bm2, ... point at
 }
 
 // buildDoc emits the tree byte by byte with the raw emitter (independent of pdfcpu's writer).
@@ -55,6 +82,7 @@ func buildDoc(in DocIn, ex docExtras) []byte {
 	d.Root = catalog
 	font := d.Add("<< /Type /Font /Subtype /Type1 /BaseFont /Helvetica >>")
 	root := d.Reserve()
+	var pageObjs []int
 	mkPage := func(parent int, p PageIn) int {
 		c := d.AddStream("", []byte(rawpdf.MarkerContent(p.Mark)))
 		body := fmt.Sprintf("<< /Type /Page /Parent %d 0 R /Contents %d 0 R /Resources << /Font << /F1 %d 0 R >> >>", parent, c, font)
@@ -67,7 +95,9 @@ func buildDoc(in DocIn, ex docExtras) []byte {
 		if p.Rot >= 0 {
 			body += fmt.Sprintf(" /Rotate %d", p.Rot)
 		}
-		return d.Add(body + " >>")
+		n := d.Add(body + " >>")
+		pageObjs = append(pageObjs, n)
+		return n
 	}
 	var kids []string
 	total := 0
@@ -103,6 +133,25 @@ func buildDoc(in DocIn, ex docExtras) []byte {
 		rp += fmt.Sprintf(" /Rotate %d", in.Rot)
 	}
 	d.Set(root, rp+" >>")
+	if len(ex.bookmarks) > 0 {
+		outl := d.Reserve()
+		items := make([]int, len(ex.bookmarks))
+		for i := range items {
+			items[i] = d.Reserve()
+		}
+		for i, pg := range ex.bookmarks {
+			body := fmt.Sprintf("<< /Title (bm%d) /Parent %d 0 R /Dest [%d 0 R /Fit]", i+1, outl, pageObjs[pg-1])
+			if i > 0 {
+				body += fmt.Sprintf(" /Prev %d 0 R", items[i-1])
+			}
+			if i < len(items)-1 {
+				body += fmt.Sprintf(" /Next %d 0 R", items[i+1])
+			}
+			d.Set(items[i], body+" >>")
+		}
+		d.Set(outl, fmt.Sprintf("<< /Type /Outlines /First %d 0 R /Last %d 0 R /Count %d >>", items[0], items[len(items)-1], len(items)))
+		ex.catalog += fmt.Sprintf(" /Outlines %d 0 R", outl)
+	}
 	d.Set(catalog, fmt.Sprintf("<< /Type /Catalog /Pages %d 0 R %s >>", root, ex.catalog))
 	if ex.info != "" {
 		d.Info = d.Add("<< " + ex.info + " >>")
